@@ -938,12 +938,14 @@ async fn update_test_file<T: std::io::Write, M: MakeConnection>(
 
         match &record {
             Record::Injected(Injected::BeginInclude(filename)) => {
+                // nothing is executed after a `halt`, included files neither
+                let halt = *halt;
                 let (outfilename, outfile) = create_outfile(filename)?;
                 stack.push(Item {
                     filename: filename.clone(),
                     outfilename,
                     outfile,
-                    halt: false,
+                    halt,
                 });
 
                 begin_times.push(Instant::now());
@@ -963,7 +965,10 @@ async fn update_test_file<T: std::io::Write, M: MakeConnection>(
             }
             Record::Injected(Injected::EndInclude(file)) => {
                 override_with_outfile(filename, outfilename, outfile)?;
+                // a `halt` in an included file stops the including file as well
+                let halt = *halt;
                 stack.pop();
+                stack.last_mut().unwrap().halt = halt;
                 finish_test_file(out, &mut begin_times, &mut did_pop, file)?;
             }
             _ => {
